@@ -456,6 +456,20 @@ pub enum ReadInstr {
 
 // =============================================================================
 
+/// Converts a field of an instruction header to the width that the file format stores,
+/// reporting an error (rather than silently storing a different value) if it does not fit.
+pub fn fit_header_field<T: std::convert::TryFrom<i64>>(
+    emitter: &dyn Emitter,
+    instr: &RawInstr,
+    what: &str,
+    value: i64,
+) -> Result<T, crate::error::ErrorReported> {
+    T::try_from(value).map_err(|_| emitter.as_sized().emit(error!(
+        "ins_{}: {} {} does not fit in the instruction header of this format",
+        instr.opcode, what, value,
+    )))
+}
+
 /// An implementation of [`LanguageHooks`] and [`InstrFormat`] for testing the raising
 /// and lowering phases of compilation.
 #[derive(Debug, Clone)]
